@@ -61,8 +61,41 @@ def run(R):
         (l, pr), o = cases[idx], obs[idx]
         R.obligation_broken("correspondence C08/dispatch", f"loader={l!r} protocol={pr!r}: implementation {o}, model {model}")
     old_layouts(R, rnd)
+    golden(R)
     if not ok or bad:
         search(R, snap, bad, cases, obs)
+
+
+def golden(R):
+    """archives frozen from earlier states of the tree (corpus/golden_p<protocol>.json, written by harness/mkgolden.py):
+    every one of them must still load to the value it was written from -- whatever the dump side writes today"""
+    for f in sorted((C.VERIF / "corpus").glob("golden_p*.json")):
+        gold = json.loads(f.read_text())
+        if R.tier == "quick":
+            gold = gold[:90]
+        shards = 6
+        chunks = [gold[i::shards] for i in range(shards)]
+        from concurrent.futures import ThreadPoolExecutor
+
+        def one(chunk):
+            p = C.run_impl("impl_codec.py", input_obj={"mode": "golden_check", "cases": chunk}, timeout=900)
+            return json.loads(p.stdout) if p.returncode == 0 else ["runner:" + p.stderr.decode(errors="replace")[-300:]] * len(chunk)
+        with ThreadPoolExecutor(shards) as ex:
+            outs = list(ex.map(one, chunks))
+        for ch, o in zip(chunks, outs):
+            for g, r in zip(ch, o):
+                proto = json.loads(g["schema"]).get("protocol")
+                R.case({"golden": f.name, "spec": g["spec"]}, nontrivial=True)
+                R.count(f"golden:p{proto}:{r.split(':')[0]}")
+                if r.startswith("runner:"):
+                    R.obligation_broken("C08 golden corpus runner", r)
+                elif r != "same":
+                    import gen_values as GV
+                    tags = sorted(GV.tags_in(g["spec"]))
+                    R.violation({"kind": "frozen-archive-no-longer-loads", "protocol": proto, "result": r.split(":")[0], "tags": tags if len(tags) <= 3 else None},
+                                f"an archive written under protocol {proto} by an earlier state of the tree ({f.name}) now gives {r[:160]}",
+                                {"golden_file": f.name, "spec": g["spec"], "schema": g["schema"][:3000]})
+    R.notes["golden_corpus"] = [f.name for f in sorted((C.VERIF / "corpus").glob("golden_p*.json"))]
 
 
 def old_layouts(R, rnd):
